@@ -158,4 +158,63 @@ CHECKS = {
         "real": MESH_REAL + ["quic-go listeners for advertised stream services"], "stub": MESH_STUB,
         "assumptions": ["settle = one advertisement period + 9 s"],
     },
+    "C04": {
+        "level": "fault_enumeration",
+        "level_text": "per seeded scenario (submits with stub runners of drawn output/pace/exit status, queries, a disk-only unit) the daemon's "
+                      "file-step trace is recorded fault-free and the scenario is re-run with the daemon killed at each step index (quick: 8 "
+                      "sampled indices per scenario, thorough: all), plus 0-2 further crash/restart cycles at drawn steps or quiescent "
+                      "instants; after the last restart every acknowledged unit must be listed with its work type, finished units with their "
+                      "outcome, size and complete output, never-started units failed, and no query may block",
+        "level_note": "a killed process loses nothing the kernel already has, so the real files are the durable state (power loss is outside "
+                      "the property); the per-unit runner is the stub (same write protocol through the real StatusFileData primitives); one "
+                      "known finding (F13)",
+        "quick": {"runs": 160, "per_proc": 10},
+        "thorough": {"runs": 1500, "per_proc": 10},
+        "hang_is_violation": True,
+        "proc_timeout": 600,
+        "needs_receptor": False,
+        "rule": "one run = one scenario x its crash points; evaluations counts scenarios, counters.crash_points_executed the crash/restart "
+                "executions; distinct_nontrivial counts distinct (ops, trace length, crash cycles) classes",
+        "real": ["pkg/workceptor (allocation, status records, command unit daemon side, scan/restart, GetResults)", "pkg/controlsvc session loop",
+                 "pkg/netceptor (idle single node)", "lockedfile/flock on real files"],
+        "stub": ["the detached command-runner process (stub task using the real UpdateBasicStatus primitive through its own directory alias)",
+                 "inotify (fake watcher; the 1 s poll does the work)", "the payload command"],
+        "assumptions": ["process death only (no power loss)", "restart no earlier than the instant of the crash"],
+        "selftest": False,
+    },
+    "C05": {
+        "level": "exploration",
+        "level_text": "seeded producers (0-7 writes of boundary sizes around the 64 KiB read buffer, pauses 0-1.5 s, empty output, no stdout "
+                      "file, failing exit) and readers asking for results from offsets {0, 1, size-1, size, middle, 65535..65537, random} at "
+                      "drawn moments before, during and after the run, plain and JSON command forms, several readers at once; bytes after "
+                      "the header must equal output[p:], and the stream must end after, not before, completion",
+        "level_note": "local part; the remote mirroring part (link cuts, relay restarts) is listed in DESIGN.md as not built yet",
+        "quick": {"runs": 600, "per_proc": 60},
+        "thorough": {"runs": 50000, "per_proc": 200},
+        "hang_is_violation": True,
+        "proc_timeout": 300,
+        "rule": "one run = 1-3 units x 1-4 result requests; distinct_nontrivial counts distinct (chunks, size bucket, offset bucket, ask time, "
+                "exit status) combinations",
+        "real": ["pkg/workceptor GetResults, control command 'work results', status records", "pkg/controlsvc WriteToConn"],
+        "stub": ["command-runner process (stub)", "inotify"],
+        "assumptions": ["'finished' for the end-of-stream condition means succeeded or failed"],
+        "selftest": False,
+    },
+    "C13": {
+        "level": "exploration",
+        "level_text": "seeded histories of submit / burst-submit / status / list / cancel / release / force-release / results from 4 concurrent "
+                      "clients against stub-runner units; a monitor on every status rewrite (old and new record read under the writer's lock "
+                      "through the step hook) and on every client-visible report checks stage monotonicity, frozen succeeded units and "
+                      "non-shrinking sizes; released units must be gone from disk and from every later answer; IDs and directories unique",
+        "level_note": "the stub runner has no pid, so 'cancel stops the process' is not covered in this mode (see DESIGN.md)",
+        "quick": {"runs": 320, "per_proc": 20},
+        "thorough": {"runs": 20000, "per_proc": 50},
+        "hang_is_violation": True,
+        "proc_timeout": 600,
+        "rule": "one run = 6-50 operations; distinct_nontrivial counts distinct (units, released, operation-kind set) classes",
+        "real": ["pkg/workceptor (all but the runner process)", "pkg/controlsvc"],
+        "stub": ["command-runner process (stub)", "inotify"],
+        "assumptions": [],
+        "selftest": False,
+    },
 }
